@@ -152,7 +152,7 @@ func RunDaemonCase(c Case, baseDir string, d DaemonCfg) (evs []Event) {
 		case "RestoreCheck":
 			ev.Rest = r.Restore(0, time.Time{})
 		default:
-			if !strings.HasPrefix(ev.Op, "App") {
+			if !strings.HasPrefix(ev.Op, "App") && ev.Op != "Fault" && ev.Op != "ClearFaults" {
 				ev.Res = "skip"
 				break
 			}
@@ -184,6 +184,9 @@ func (r *Runner) daemonObserve(ev *Event) {
 	}
 	ev.Remote = listLTX(r.repDir + "/ltx")
 	ev.RPos = maxTx(ev.Remote, 0)
+	if r.fc != nil {
+		ev.FaultsLeft = r.fc.left()
+	}
 	if !r.lsUp {
 		ev.Local = listLTX(r.metaLTXDir())
 		ev.LPos = maxTx(ev.Local, 0)
